@@ -5,6 +5,7 @@
    computes.  Everything proved about the model (JSON well-formedness, value
    round trip, ...) therefore holds of the translated source. *)
 From Verif Require Import Base.Prelude Base.FloatBits Base.Decimal Base.GoSem Enc.JsonEnc Enc.GoStd Base.Utf8 Gen.JsonSrc.
+From Verif Require Proofs.JsonEncP.
 Open Scope Z_scope.
 
 Definition bytes_ok (s : list N) : Prop := Forall (fun b => (b < 256)%N) s.
@@ -734,6 +735,109 @@ Proof.
 Qed.
 
 
+(* ---------- float slices: the running buffer stays below 2^62 bytes ---------- *)
+Lemma cleanup_exp_len t : (length (cleanup_exp t) <= length t)%nat.
+Proof.
+  destruct (Proofs.JsonEncP.cleanup_exp_cases t) as [(p & d & Et & Ec)|E]; [|rewrite E; lia].
+  rewrite Ec, Et, !app_length. cbn [length]. lia.
+Qed.
+
+Definition fcost (f : fval) : Z := len (f_txt_e f) + len (f_txt_f f) + 8.
+Definition ftotal (l : list fval) : Z := fold_right (fun f acc => fcost f + acc) 0 l.
+
+Lemma appendFloat_len dst w f prec : len (JsonEnc.appendFloat dst w f prec) <= len dst + fcost f - 1.
+Proof.
+  unfold JsonEnc.appendFloat, fcost.
+  pose proof (len_nonneg (f_txt_e f)). pose proof (len_nonneg (f_txt_f f)).
+  pose proof (cleanup_exp_len (f_txt_e f)) as Hc.
+  repeat match goal with |- context [if ?c then _ else _] => destruct c end;
+    rewrite len_app; unfold len in *; cbn [length s_nan s_pinf s_ninf]; lia.
+Qed.
+
+Definition f64_ok (fo : float_oracle) (prec : Z) (f : fval) : Prop :=
+  (f_bits f < 2 ^ 64)%N /\ fo_agrees fo f prec /\ (4 <= length (f_txt_e f))%nat.
+
+Lemma AppendFloats64_loop_ok fo prec : forall l d, Forall (f64_ok fo prec) l -> len d + ftotal l < 2 ^ 62 ->
+  AppendFloats64_loop1 fo (map (fun f => mk64 (f_bits f)) l) prec d =
+  Ok (LExit (fold_left (fun d f => JsonEnc.appendFloat (d ++ [44%N]) false f prec) l d)).
+Proof.
+  intros l; induction l as [|f l IH]; intros d H Hl; [reflexivity|]. inversion H as [|? ? (Hb & Ho & H4) H']; subst.
+  cbn [map AppendFloats64_loop1 fold_left]. cbn [ftotal fold_right] in Hl. fold (ftotal l) in Hl.
+  pose proof (AppendFloat64_src fo (d ++ [44%N]) f prec Hb Ho H4) as E. unfold JsonSrc.AppendFloat64, JsonEnc.AppendFloat64 in E.
+  assert (Hpos : 0 <= ftotal l).
+  { clear. induction l as [|x l IH]; cbn [ftotal fold_right]; [lia|]. fold (ftotal l). unfold fcost. pose proof (len_nonneg (f_txt_e x)). pose proof (len_nonneg (f_txt_f x)). lia. }
+  rewrite E.
+  2:{ unfold len_ok. rewrite !len_app. unfold fcost in Hl. pose proof (len_nonneg (f_txt_f f)). change (len [44%N]) with 1. lia. }
+  cbn [bind]. cbv zeta. apply IH; auto.
+  pose proof (appendFloat_len (d ++ [44%N]) false f prec) as Hlen. rewrite len_app in Hlen. change (len [44%N]) with 1 in Hlen. lia.
+Qed.
+
+Theorem AppendFloats64_src fo dst l prec : Forall (f64_ok fo prec) l -> len dst + 1 + ftotal l < 2 ^ 62 ->
+  JsonSrc.AppendFloats64 fo dst (map (fun f => mk64 (f_bits f)) l) prec = Ok (JsonEnc.AppendFloats64 dst l prec).
+Proof.
+  intros H Hl. unfold JsonSrc.AppendFloats64, JsonEnc.AppendFloats64, append_slice. destruct l as [|f0 rest]; [reflexivity|].
+  inversion H as [|? ? (Hb & Ho & H4) H']; subst. cbn [map]. rewrite len_cons.
+  pose proof (len_nonneg (map (fun f => mk64 (f_bits f)) rest)) as Hr.
+  replace (1 + len (map (fun f : fval => mk64 (f_bits f)) rest) =? 0) with false by lia. cbv zeta.
+  rewrite inb_true by (rewrite len_cons; lia). rewrite guard_true.
+  change (idx {| fl32 := false; flbits := 0 |} (mk64 (f_bits f0) :: map (fun f => mk64 (f_bits f)) rest) 0) with (mk64 (f_bits f0)).
+  cbn [ftotal fold_right] in Hl. fold (ftotal rest) in Hl.
+  assert (Hpos : 0 <= ftotal rest).
+  { clear. induction rest as [|x l IH]; cbn [ftotal fold_right]; [lia|]. fold (ftotal l). unfold fcost. pose proof (len_nonneg (f_txt_e x)). pose proof (len_nonneg (f_txt_f x)). lia. }
+  pose proof (AppendFloat64_src fo (dst ++ [91%N]) f0 prec Hb Ho H4) as E. unfold JsonSrc.AppendFloat64, JsonEnc.AppendFloat64 in E.
+  rewrite E.
+  2:{ unfold len_ok. rewrite !len_app. unfold fcost in Hl. pose proof (len_nonneg (f_txt_f f0)). change (len [91%N]) with 1. lia. }
+  cbn [bind].
+  pose proof (appendFloat_len (dst ++ [91%N]) false f0 prec) as Hlen. rewrite len_app in Hlen. change (len [91%N]) with 1 in Hlen.
+  destruct (1 <? 1 + len (map (fun f => mk64 (f_bits f)) rest)) eqn:E1.
+  - rewrite slice_ok_true by (rewrite ?len_cons; lia). rewrite guard_true.
+    rewrite <- (len_cons (mk64 (f_bits f0))). rewrite slice_tail.
+    rewrite AppendFloats64_loop_ok by (auto; lia). reflexivity.
+  - assert (rest = []) by (destruct rest; [auto|cbn [map] in E1; rewrite len_cons in E1; pose proof (len_nonneg (map (fun f => mk64 (f_bits f)) rest)); lia]). subst rest. reflexivity.
+Qed.
+
+Definition f32_ok (fo : float_oracle) (prec : Z) (f : fval) : Prop :=
+  (f_bits f < 4294967296)%N /\ fo_agrees32 fo f prec /\ (4 <= length (f_txt_e f))%nat.
+
+Lemma AppendFloats32_loop_ok fo prec : forall l d, Forall (f32_ok fo prec) l -> len d + ftotal l < 2 ^ 62 ->
+  AppendFloats32_loop1 fo (map (fun f => mk32 (f_bits f)) l) prec d =
+  Ok (LExit (fold_left (fun d f => JsonEnc.appendFloat (d ++ [44%N]) true f prec) l d)).
+Proof.
+  intros l; induction l as [|f l IH]; intros d H Hl; [reflexivity|]. inversion H as [|? ? (Hb & Ho & H4) H']; subst.
+  cbn [map AppendFloats32_loop1 fold_left]. cbn [ftotal fold_right] in Hl. fold (ftotal l) in Hl.
+  pose proof (AppendFloat32_src fo (d ++ [44%N]) f prec Hb Ho H4) as E. unfold JsonSrc.AppendFloat32, JsonEnc.AppendFloat32 in E.
+  assert (Hpos : 0 <= ftotal l).
+  { clear. induction l as [|x l IH]; cbn [ftotal fold_right]; [lia|]. fold (ftotal l). unfold fcost. pose proof (len_nonneg (f_txt_e x)). pose proof (len_nonneg (f_txt_f x)). lia. }
+  rewrite E.
+  2:{ unfold len_ok. rewrite !len_app. unfold fcost in Hl. pose proof (len_nonneg (f_txt_f f)). change (len [44%N]) with 1. lia. }
+  cbn [bind]. cbv zeta. apply IH; auto.
+  pose proof (appendFloat_len (d ++ [44%N]) true f prec) as Hlen. rewrite len_app in Hlen. change (len [44%N]) with 1 in Hlen. lia.
+Qed.
+
+Theorem AppendFloats32_src fo dst l prec : Forall (f32_ok fo prec) l -> len dst + 1 + ftotal l < 2 ^ 62 ->
+  JsonSrc.AppendFloats32 fo dst (map (fun f => mk32 (f_bits f)) l) prec = Ok (JsonEnc.AppendFloats32 dst l prec).
+Proof.
+  intros H Hl. unfold JsonSrc.AppendFloats32, JsonEnc.AppendFloats32, append_slice. destruct l as [|f0 rest]; [reflexivity|].
+  inversion H as [|? ? (Hb & Ho & H4) H']; subst. cbn [map]. rewrite len_cons.
+  pose proof (len_nonneg (map (fun f => mk32 (f_bits f)) rest)) as Hr.
+  replace (1 + len (map (fun f : fval => mk32 (f_bits f)) rest) =? 0) with false by lia. cbv zeta.
+  rewrite inb_true by (rewrite len_cons; lia). rewrite guard_true.
+  change (idx {| fl32 := true; flbits := 0 |} (mk32 (f_bits f0) :: map (fun f => mk32 (f_bits f)) rest) 0) with (mk32 (f_bits f0)).
+  cbn [ftotal fold_right] in Hl. fold (ftotal rest) in Hl.
+  assert (Hpos : 0 <= ftotal rest).
+  { clear. induction rest as [|x l IH]; cbn [ftotal fold_right]; [lia|]. fold (ftotal l). unfold fcost. pose proof (len_nonneg (f_txt_e x)). pose proof (len_nonneg (f_txt_f x)). lia. }
+  pose proof (AppendFloat32_src fo (dst ++ [91%N]) f0 prec Hb Ho H4) as E. unfold JsonSrc.AppendFloat32, JsonEnc.AppendFloat32 in E.
+  rewrite E.
+  2:{ unfold len_ok. rewrite !len_app. unfold fcost in Hl. pose proof (len_nonneg (f_txt_f f0)). change (len [91%N]) with 1. lia. }
+  cbn [bind].
+  pose proof (appendFloat_len (dst ++ [91%N]) true f0 prec) as Hlen. rewrite len_app in Hlen. change (len [91%N]) with 1 in Hlen.
+  destruct (1 <? 1 + len (map (fun f => mk32 (f_bits f)) rest)) eqn:E1.
+  - rewrite slice_ok_true by (rewrite ?len_cons; lia). rewrite guard_true.
+    rewrite <- (len_cons (mk32 (f_bits f0))). rewrite slice_tail.
+    rewrite AppendFloats32_loop_ok by (auto; lia). reflexivity.
+  - assert (rest = []) by (destruct rest; [auto|cbn [map] in E1; rewrite len_cons in E1; pose proof (len_nonneg (map (fun f => mk32 (f_bits f)) rest)); lia]). subst rest. reflexivity.
+Qed.
+
 (* ---------- summary: every translated function of internal/json refines the model ---------- *)
 Definition strs_ok (vals : list (list N)) : Prop := Forall (fun s => bytes_ok s /\ len_ok s) vals.
 
@@ -770,7 +874,11 @@ Definition json_source_refinement : Prop :=
   (forall fo dst f prec, (f_bits f < 2 ^ 64)%N -> fo_agrees fo f prec -> (4 <= length (f_txt_e f))%nat -> len_ok (dst ++ f_txt_e f) ->
      JsonSrc.AppendFloat64 fo dst (mk64 (f_bits f)) prec = Ok (JsonEnc.AppendFloat64 dst f prec)) /\
   (forall fo dst f prec, (f_bits f < 4294967296)%N -> fo_agrees32 fo f prec -> (4 <= length (f_txt_e f))%nat -> len_ok (dst ++ f_txt_e f) ->
-     JsonSrc.AppendFloat32 fo dst (mk32 (f_bits f)) prec = Ok (JsonEnc.AppendFloat32 dst f prec)).
+     JsonSrc.AppendFloat32 fo dst (mk32 (f_bits f)) prec = Ok (JsonEnc.AppendFloat32 dst f prec)) /\
+  (forall fo dst l prec, Forall (f64_ok fo prec) l -> len dst + 1 + ftotal l < 2 ^ 62 ->
+     JsonSrc.AppendFloats64 fo dst (map (fun f => mk64 (f_bits f)) l) prec = Ok (JsonEnc.AppendFloats64 dst l prec)) /\
+  (forall fo dst l prec, Forall (f32_ok fo prec) l -> len dst + 1 + ftotal l < 2 ^ 62 ->
+     JsonSrc.AppendFloats32 fo dst (map (fun f => mk32 (f_bits f)) l) prec = Ok (JsonEnc.AppendFloats32 dst l prec)).
 
 Theorem json_source_refines_model : json_source_refinement.
 Proof.
@@ -779,7 +887,7 @@ Proof.
           | apply AppendStrings_src | apply AppendArrayDelim_src | apply AppendBool_src | apply AppendBools_src
           | apply AppendInts_src | apply AppendInts8_src | apply AppendInts16_src | apply AppendInts32_src | apply AppendInts64_src
           | apply AppendUints_src | apply AppendUints8_src | apply AppendUints16_src | apply AppendUints32_src | apply AppendUints64_src
-          | apply AppendTime_src | apply AppendTimes_src | apply AppendFloat64_src | apply AppendFloat32_src | reflexivity ]; auto.
+          | apply AppendTime_src | apply AppendTimes_src | apply AppendFloat64_src | apply AppendFloat32_src | apply AppendFloats64_src | apply AppendFloats32_src | reflexivity ]; auto.
 Qed.
 
 (* the functions of internal/json the translator could NOT express stay tied to the code by the
